@@ -168,7 +168,9 @@ def action_is_masked_in(b: envs.Bundle, mask, a) -> bool:
             return bool(mask[int(a)])
         if b.layout == "nd":
             return bool(mask[tuple(int(x) for x in a)])
-        return all(bool(mask[i, int(a[i])]) for i in range(mask.shape[0]))
+        # an agent whose mask row is empty has no legal move at all (e.g. a finished MMST agent, there is no
+        # no-op): whatever it submits is ignored and does not make the joint action mask-violating
+        return all(bool(mask[i, int(a[i])]) or not mask[i].any() for i in range(mask.shape[0]))
     except IndexError:
         return False
 
